@@ -78,6 +78,7 @@ type ChanV struct {
 	Closed bool
 	Buf    []Value
 	Cap    int
+	Ctx    *Opaque // a context's Done channel: ready as soon as that context (or an ancestor) is cancelled
 }
 
 // AnyJSON: a value decoded by encoding/json into `any`. Tag is a symbolic Int:
